@@ -175,15 +175,23 @@ fn case(r: &mut Rng, res: &mut CaseResult) {
             late.push(deliver_frames(chans[a].actor.id, &chans[a].cons[k].1, &m, &even_partition(30, 64)).concat());
             chans[a].cons[k].2.push((dtag, m.body));
         }
+        // In half of the runs the server takes its time to answer, and other threads
+        // submit operations after Connection.Close has reached the server and before
+        // CloseOk: none of that may ever be written.
+        let slow_server = r.bool();
+        let late2 = late.clone();
         h.with(|st| {
-            st.reflex.custom = Some(Box::new(move |f, _rf, out, end| {
+            st.reflex.custom = Some(Box::new(move |f, rf, out, end| {
                 if let Some(AMQPClass::Connection(Cn::Close(_))) = f.method() {
-                    for l in &late {
-                        out.push(l.clone());
-                    }
-                    out.push(conn_close_ok_frame());
-                    if eof_same_read {
-                        *end = Some(InEnd::Eof);
+                    rf.got_conn_close = true;
+                    if !slow_server {
+                        for l in &late {
+                            out.push(l.clone());
+                        }
+                        out.push(conn_close_ok_frame());
+                        if eof_same_read {
+                            *end = Some(InEnd::Eof);
+                        }
                     }
                     return true;
                 }
@@ -192,6 +200,44 @@ fn case(r: &mut Rng, res: &mut CaseResult) {
         });
         drop(own);
         let t = run::spawn("close", move || conn.close());
+        if slow_server {
+            if !h.wait(W, |st| st.reflex.got_conn_close) {
+                res.violate("close_hangs", "Connection.Close never reached the server".to_string());
+                return;
+            }
+            let wire_at_close = h.out_len();
+            // submissions after the close point, on every channel that is not blocked
+            let mut extra: Vec<usize> = vec![0; chans.len()];
+            for (ci, ch) in chans.iter().enumerate().filter(|(_, c)| !c.blocked_rpc) {
+                for _ in 0..r.usize(1, 4) {
+                    ch.actor.send(if r.bool() { Cmd::Publish(r.usize(0, 300)) } else { Cmd::Nowait });
+                    extra[ci] += 1;
+                }
+            }
+            std::thread::sleep(Duration::from_millis(r.range(1, 4)));
+            let after = h.out_len();
+            if after != wire_at_close {
+                res.violate("written_after_close", format!("{} bytes were written after Connection.Close had been written (operations submitted by other threads before CloseOk arrived)", after - wire_at_close));
+            }
+            // collect their results (all must have returned: nowait sends do not wait)
+            for (ci, ch) in chans.iter_mut().enumerate().filter(|(_, c)| !c.blocked_rpc) {
+                // (the replies of the earlier racing publishes come first)
+                for _ in 0..(ch.fired_publishes + extra[ci]) {
+                    if ch.actor.reply(W).is_none() {
+                        res.violate("caller_not_released", format!("channel {}: an operation submitted after Connection.Close was written did not return", ch.actor.id));
+                        break;
+                    }
+                }
+                ch.fired_publishes = 0;
+            }
+            let mut bytes: Vec<u8> = late2.concat();
+            bytes.extend(conn_close_ok_frame());
+            h.inject(bytes);
+            if eof_same_read {
+                h.set_end(InEnd::Eof);
+            }
+            res.obs("slow_server_closes", 1);
+        }
         match t.join(W) {
             J::Done(Ok(())) => {}
             J::Done(Err(e)) => res.violate(
